@@ -98,8 +98,26 @@ def cases(tier, seed):
             cc = reinstantiate(c, cfg)
             if cc.cid in seen: continue
             seen.add(cc.cid); out.append(cc)
+    out += targeted_cases(tier, seed, seen)
     global _ACCEPT
     _ACCEPT = base
+    return out
+
+def targeted_cases(tier, seed, seen):
+    """tuning macros act on one kernel each, so a random (case x macro) sample rarely reaches the code a macro selects:
+    the block-size macros are re-enforced on the shapes that reach the configured block of their kernel
+    (matmul: units.c01 macro cases; transpose: units.c14.trans_macro_cases)."""
+    out = []
+    try:
+        c01 = importlib.import_module('units.c01'); c14 = importlib.import_module('units.c14')
+    except Exception:
+        return out
+    cs = [c for c in c01.cases(tier, seed) if c.cfg.macros and (tier == 'thorough' or c.cfg.isa == 'sse2')]
+    cs += c14.trans_macro_cases(tier)
+    for c in cs:
+        cc = reinstantiate(c, c.cfg)
+        if cc.cid in seen: continue
+        seen.add(cc.cid); out.append(cc)
     return out
 
 # ---- acceptance matrix (run from evidence_extra so that it is part of the same check run) -------------------------
